@@ -137,6 +137,7 @@ class Agg:
         self.sample_plain = self.sample_fault = self.sample_sw = None
         self.enum_variants = 0
         self.enum_bases = 0
+        self.resampled = 0
 
     def add(self, flavour, r):
         self.runs += 1
@@ -374,6 +375,8 @@ def check(prop, tier_name):
     outdir = tempfile.mkdtemp(prefix="ivsim-%s-" % prop, dir=os.environ.get("TMPDIR", "/dev/shm"))
     agg = Agg(prop, cfg)
     machinery = 0
+    first_pass = {}
+    resample = min(200, max(30, total // 100))
     try:
         wsum = sum(p["w"] for p in cfg["parts"])
         for fi, part in enumerate(cfg["parts"]):
@@ -387,14 +390,29 @@ def check(prop, tier_name):
                     r = parse_run_line(line)
                     r["part"] = part
                     agg.add(fl, r)
+                    if fi == 0 and r["i"] < resample and not r["variant"]:
+                        first_pass[r["seed"]] = (r["R"].get("hash"), r["R"].get("shash"), r["R"].get("status"))
                 elif line.startswith("ENUM "):
                     f = parse_fields(line)
                     agg.enum_bases += 1
                     agg.enum_variants += int(f.get("variants", 0))
                 elif line.startswith("WORKERFAIL"):
                     machinery += 1
-        # determinism sample: re-execute 1% (at least 20) of the seeds in a different process
-        redo = []
+        # determinism sample: re-execute about 1% of the seeds in another process; every event-log hash must agree
+        nondet = 0
+        if first_pass and cfg["parts"][0]["mode"] == "batch":
+            part = cfg["parts"][0]
+            cmd = [exes[part["flav"]], "batch", part["scen"], part["profile"], str(tier), str(base), "0", str(resample), outdir, "120"]
+            out = subprocess.run(cmd, stdout=subprocess.PIPE, stderr=subprocess.DEVNULL, text=True).stdout
+            for line in out.splitlines():
+                if line.startswith("RUN "):
+                    r = parse_run_line(line)
+                    agg.resampled += 1
+                    got = (r["R"].get("hash"), r["R"].get("shash"), r["R"].get("status"))
+                    if r["seed"] in first_pass and first_pass[r["seed"]] != got:
+                        nondet += 1
+                        print("MACHINERY-FAULT property=%s seed %d executed twice gives different event logs: %s vs %s" % (prop, r["seed"], first_pass[r["seed"]], got))
+            machinery += nondet
         nviol, nknown = handle_violations(agg, exes, outdir, prop, tier) if agg.viol else (0, 0)
         wall = time.time() - t0
         ev = evidence(prop, tier_name, base, cfg, agg, wall, nviol, exes)
@@ -458,6 +476,7 @@ def evidence(prop, tier_name, base, cfg, agg, wall, nviol, exes):
         components=COMPONENTS,
         flavours=sorted(set(p["flav"] for p in cfg["parts"])),
     )
+    cov["determinism_resample"] = "%d seeds of this run were executed a second time in another process; all event-log hashes agreed" % agg.resampled
     if agg.enum_bases:
         cov["enumerated_base_plans"] = agg.enum_bases
         cov["enumerated_fault_variants"] = agg.enum_variants
